@@ -240,6 +240,8 @@ class FileIndex(object):
                     # If this check passes, we don't need to continue with the other checks below.
                     return
                 else:
+                    if delete_on_error:
+                        os.remove(index_path)
                     raise ValueError("Size expected by index file does not match binary file. [size=%d B, "
                                      "expected=%d B]" %
                                      (data_file_size, expected_data_file_size))
